@@ -87,6 +87,13 @@ def work_text(job):
         v = copy.deepcopy(explicit)
         v["mapping"]["partitioning"] = {out_name(e): {} for e in spec["exprs"]}
         variants.append(("explicitly empty partitioning", v))
+    part = (spec.get("mapping") or {}).get("partitioning") or {}
+    outs = [out_name(e) for e in spec["exprs"]]
+    if part and any(o not in part for o in outs):
+        for zval in ({}, None):
+            v = copy.deepcopy(explicit)
+            v["mapping"]["partitioning"] = dict(list(copy.deepcopy(part).items()) + [(o, zval) for o in outs if o not in part])
+            variants.append(("explicitly empty partitioning entry (%r) for the unpartitioned outputs" % (zval,), v))
     try:
         ref = e1.compile_spec(explicit)
     except e1.Rejected as r:
@@ -165,6 +172,7 @@ def run(tier, seed):
                          "env": {"CH_RANKS": 3, "CH_SLICE": sl}})
     jobs.append({"kind": "ch", "name": "mapping", "func": "mapping", "role": "decide", "timeout": 300, "env": {}})
     jobs.append({"kind": "ch", "name": "mapping_twin", "func": "mapping_twin", "role": "twin", "timeout": 60, "env": {}})
+    jobs.append({"kind": "ch", "name": "mapping_entries", "func": "mapping_entries", "role": "decide", "timeout": 300, "env": {}})
     jobs.sort(key=lambda j: -j["timeout"])
     for s in text_specs(tier, seed):
         jobs.append({"kind": "text", "spec": s, "name": s["name"]})
